@@ -161,6 +161,7 @@ pub fn run(args: &[String]) {
     let names = keyname_table();
     let root = PathBuf::from(format!("/verif/build/tmp/rsim-{}", std::process::id()));
     for case in cases.iter().skip(start) {
+        crate::wd::case_begin();
         run_case(case, &names, &root);
     }
     let _ = std::fs::remove_dir_all(&root);
